@@ -29,6 +29,24 @@ def pools():
     return canon, spell, [p for p in porder if p]
 
 
+def readings(t):
+    """every reading of a token by the naming rule (exact spelling; prefix + unit [+ s]), from the reader's tables only"""
+    table()
+    usp, psp = _cache["sp"][0], _cache["sp"][1]
+    out = set()
+    if t in usp:
+        out.add(("", usp[t]))
+    for p_ in psp:
+        if p_ and t.startswith(p_):
+            rest = t[len(p_):]
+            for r in (rest, rest[:-1] if rest.endswith("s") else None):
+                if r and r in usp:
+                    out.add((psp[p_], usp[r]))
+    if t.endswith("s") and t[:-1] in usp:
+        out.add(("", usp[t[:-1]]))
+    return out
+
+
 def item(s, e):
     e = F(e)
     return {"s": reader.esc(s), "e": [e.numerator, e.denominator], "sp": reader.splits_of(s)}
